@@ -278,11 +278,12 @@ fn boundary<F: Scalar>(_p: &Params) {
         vec![[2, 1], [1, 2], [-2, 1], [-1, -2], [2, -1], [0, 0], [1, 0], [3, 3]],
         vec![[0, 1], [1, 0], [0, -1], [-1, 0], [2, 2], [-2, -2], [1, 1], [-3, 1], [3, -1]],
         vec![[3, 1], [1, 3], [-3, -1], [-1, 3], [2, 3], [3, 2], [0, 3], [-2, -3], [1, -3], [4, 0]],
+        vec![[1, 6], [6, 1], [5, 4], [3, 5], [2, 5], [1, 5], [6, 2], [4, 1], [-1, -6], [0, 0], [-5, 4]],
     ];
     let pts_i = &tables[choice("table", tables.len())];
     let queries: [[i64; 2]; 3] = [[0, 0], [1, 0], [-1, 2]];
     let qi = queries[choice("query", queries.len())];
-    let squares: [u64; 9] = [1, 2, 5, 8, 10, 13, 18, 20, 25];
+    let squares: [u64; 16] = [1, 2, 5, 8, 10, 13, 17, 18, 20, 25, 26, 29, 34, 37, 40, 41];
     let k2 = squares[choice("r2", squares.len())];
     let base = (k2 as f64).sqrt();
     let r = match choice("ulp", 3) {
@@ -392,7 +393,7 @@ pub fn register(v: &mut Vec<HarnessDef>) {
         doc: "L2 range queries over integer lattice points with radii sqrt(k) and its two neighbouring doubles: every index kind returns exactly the points inside the radius in exact arithmetic; kinds agree",
         sym: boundary::<SymF>, native: None,
         functions: &["linfa_nn::{BallTreeIndex, KdTreeIndex, LinearSearchIndex}::within_range (f64, L2Dist)", "linfa_nn::balltree::BallTreeInner::rdistance (rounded lower bound)", "linfa_nn::distance::L2Dist::{distance, rdistance, dist_to_rdist}"],
-        assumptions: &["four tables of 6-10 lattice points, three queries, radii sqrt(k) (k in 1,2,5,8,10,13,18,20,25) and the doubles next to them, leaf sizes 1-3", "concrete f64 run per configuration (the solver only enumerates configurations); membership decided exactly in 128-bit integer arithmetic"],
+        assumptions: &["five tables of 6-11 lattice points, three queries, radii sqrt(k) (16 values of k between 1 and 41) and the floats next to them, leaf sizes 1-3; single=1: the f32 instantiation", "concrete f64 run per configuration (the solver only enumerates configurations); membership decided exactly in 128-bit integer arithmetic"],
     });
     harness!(v, "c07.knn", "C07", knn,
         "k_nearest of one index kind vs brute force on symbolic integer coordinates",
